@@ -411,7 +411,19 @@ def one_char(t, lo, hi):
 
 
 def unchanged(old, s):
-    return both(s._edit_text is old._edit_text, s._edit_pos == old._edit_pos, len(emits(s.trace)) == 0)
+    return both(same_text(s._edit_text, old._edit_text), s._edit_pos == old._edit_pos, len(emits(s.trace)) == 0)
+
+
+def handled_by_reference_editor(old, key):
+    """The keys the reference editor uses in state `old` (everything else is handed back)."""
+    t, p = old._edit_text, old._edit_pos
+    n = tlen(t)
+    cmd = command_of(key)
+    ins = either(valid_char_of(old, key), both(text_eq(key, "tab"), old.allow_tab), both(text_eq(key, "enter"), old.multiline))
+    left, right = cmd == Command.LEFT, cmd == Command.RIGHT
+    return either(ins, both(left, p > 0), both(neg(left), right, p < n),
+                  both(neg(left), neg(right), text_eq(key, "backspace"), p > 0),
+                  both(neg(left), neg(right), neg(text_eq(key, "backspace")), text_eq(key, "delete"), p < n))
 
 
 def key_insertion(s, key):
@@ -440,6 +452,14 @@ class edit_keypress(_EditBase):
             return COMMAND_MAP
         return NotImplemented
 
+    def pure_spec(old, a):
+        # callee use (IntEdit / NumEdit call super().keypress): the result is None or the key object itself
+        return None if bool(handled_by_reference_editor(old, a.key)) else a.key
+
+    def effects(old, s, a, result):
+        # ghost: the state the reference step leaves behind (the leading-zero loops of the numeric variants start from it)
+        s.trace.append(("ref-step", s.fields["_edit_text"], s.fields["_edit_pos"]))
+
     def requires(s, a):
         t = s._edit_text
         cmd = command_of(a.key)
@@ -460,6 +480,7 @@ class edit_keypress(_EditBase):
         key = a.key
         cmd = command_of(key)
         handled = is_none(result)
+        yield "handled-exactly-the-keys-the-reference-editor-uses", handled == bool(handled_by_reference_editor(old, key))
         yield "cursor-stays-on-a-character-boundary", bnd(s._edit_text, s._edit_pos)
 
         def inserted(ins, what):
@@ -497,14 +518,14 @@ class edit_keypress(_EditBase):
             else:
                 yield "left/handled", handled
                 yield "left/one-character-back", one_char(t, s._edit_pos, p)
-                yield "left/text-untouched", both(s._edit_text is t, len(emits(s.trace)) == 0)
+                yield "left/text-untouched", both(same_text(s._edit_text, t), len(emits(s.trace)) == 0)
         elif cmd == Command.RIGHT:
             if p >= n:
                 yield from returned_unhandled("right-at-the-end")
             else:
                 yield "right/handled", handled
                 yield "right/one-character-forward", one_char(t, p, s._edit_pos)
-                yield "right/text-untouched", both(s._edit_text is t, len(emits(s.trace)) == 0)
+                yield "right/text-untouched", both(same_text(s._edit_text, t), len(emits(s.trace)) == 0)
         elif text_eq(key, "backspace"):
             if p == 0:
                 yield from returned_unhandled("backspace-at-the-start")
@@ -527,3 +548,114 @@ def V_repeat(unit, k):
 
         return SRepeat(SConst(unit), k)
     return unit * k
+
+
+# ------------------------------------------------------------------------------------------------ IntEdit
+
+import string  # noqa: E402
+
+
+class StrEditShape(EditShape):
+    """The numeric variants hold a str (their constructors build the text with str()); no bytes family."""
+
+    def fresh(self, st, hint):
+        o = SObj(self.cls, {k: s.fresh(st, f"{hint}.{k}") for k, s in self.fields.items()})
+        o.shape = self
+        return o
+
+
+INTEDIT = StrEditShape(_edit.IntEdit)
+
+
+def is_digit(c):
+    return either(*[elem_eq(c, as_text(d).get(0)) for d in string.digits])
+
+
+def _int_valid(ch):
+    return both(tlen(ch) == 1, is_digit(ch.get(0)))
+
+
+@contract(ED + "IntEdit.valid_char", property="C10")
+class int_valid_char:
+    self_shape = INTEDIT
+    replayable = False
+    params = dict(ch=Text("str"))
+    result = Bool
+    raises = ()
+    modifies = ()
+
+    def ensures(old, s, a, result):
+        yield "exactly-one-decimal-digit", eq(result, _int_valid(a.ch))
+
+    def pure_spec(old, a):
+        return _int_valid(a.ch)
+
+
+VALID["IntEdit"] = int_valid_char
+
+
+def all_in(t, pred):
+    """Every character of t satisfies pred (a formula over one element)."""
+    st = cur()
+    j = z3.Int(st.fresh_name("q"))
+    from pyvc.values import SOpaque
+
+    c = SOpaque("Char", t.raw(j))
+    return mk_bool(z3.ForAll([j], z3.Implies(z3.And(0 <= j, j < V._z(tlen(t))), V._zb(pred(c)))))
+
+
+def ref_step_state(trace):
+    evs = [ev for ev in trace if ev[0] == "ref-step"]
+    return evs[-1][1], evs[-1][2]
+
+
+def zeros_stripped(mid_t, mid_p, t, p):
+    """(t, p) is (mid_t, mid_p) with k leading '0' characters removed, k = mid_p - p (all left of the cursor)."""
+    k = mid_p - p
+    zero = as_text("0").get(0)
+    st = cur()
+    j = z3.Int(st.fresh_name("q"))
+    lead = mk_bool(z3.ForAll([j], z3.Implies(z3.And(0 <= j, j < V._z(k)), mid_t.raw(j) == zero.e)))
+    return both(0 <= k, k <= mid_p, tlen(t) == tlen(mid_t) - k, lead, same_text(t, mid_t.slice(k, tlen(mid_t))))
+
+
+def no_zero_left_of_cursor(t, p):
+    zero = as_text("0").get(0)
+    return either(p == 0, tlen(t) == 0, neg(elem_eq(t.get(0), zero)))
+
+
+STRIP_LOOP = Loop(
+    invariant=lambda v: both(in_range(v.self), zeros_stripped(*ref_step_state(v.self.trace), v.self._edit_text, v.self._edit_pos)),
+    decreases=lambda v: v.self._edit_pos,
+    modifies=("self._edit_text", "self._edit_pos", "self.highlight", "self.pref_col_maxcol"),
+)
+
+
+@contract(ED + "IntEdit.keypress", property="C10")
+class int_keypress:
+    self_shape = INTEDIT
+    invariant = staticmethod(RI)
+    globals_ = ENC
+    replayable = False
+    inline = _EditBase.inline
+    havoc = _EditBase.havoc
+    params = dict(size=Tup(Int), key=Text("str"))
+    raises = ()
+    modifies = ("_edit_text", "_edit_pos", "highlight", "pref_col_maxcol")
+    missing_field = edit_keypress.missing_field
+    loops = {0: STRIP_LOOP}
+
+    def requires(s, a):
+        return edit_keypress.requires(s, a)
+
+    def ensures(old, s, a, result):
+        handled = is_none(result)
+        yield "handled-exactly-the-keys-the-reference-editor-uses", handled == bool(handled_by_reference_editor(old, a.key))
+        if not handled:
+            yield "unused-key/returned-unchanged", result is a.key
+            yield "unused-key/nothing-edited", both(same_text(s._edit_text, old._edit_text), s._edit_pos == old._edit_pos)
+        else:
+            mid_t, mid_p = ref_step_state(s.trace)
+            yield "no-zero-left-in-front-of-the-cursor", no_zero_left_of_cursor(s._edit_text, s._edit_pos)
+            yield "only-leading-zeros-left-of-the-cursor-removed-from-the-reference-step", zeros_stripped(mid_t, mid_p, s._edit_text, s._edit_pos)
+        yield "digits-only-stays-digits-only", implies(all_in(old._edit_text, is_digit), all_in(s._edit_text, is_digit))
